@@ -547,9 +547,9 @@ func sortInts(a []int) {
 // position stored in a narrow integer type, a block-wise fast path. A small share of the trials of every
 // model-based check therefore uses sizes around the powers of two where such thresholds live.
 
-// scaleWidth is an alignment width just below, at or a little above 2^k, k in {6,7,8,10,12,13,15,16,17}.
+// scaleWidth is an alignment width just below, at or a little above 2^k, k in {6,7,8,10,12,13,15,16,17,18}.
 func scaleWidth(r *Rand) int {
-	k := []int{6, 7, 7, 8, 8, 10, 12, 13, 15, 16, 16, 16, 17}[r.Intn(13)]
+	k := []int{6, 7, 7, 8, 8, 10, 12, 13, 15, 16, 16, 16, 17, 18}[r.Intn(14)]
 	return (1 << uint(k)) + r.Range(-2, 70)
 }
 
